@@ -154,10 +154,17 @@ class Setup:
 
 
 def unwind_bound(setup: Setup) -> int:
-    """Loop bound per loop instance: largest dense extent + stored entries of all operands + 2."""
-    dmax = max([v for v in setup.dimvals.values() if isinstance(v, int)] + [0])
+    """Loop bound per loop instance, derived from the input bounds: a loop runs over one dense extent,
+    over the stored entries of the operands it co-iterates, or (bucket initialisation) over the
+    product of the output's dense extents; + 2 slack.  Exceeding it is reported, never truncated."""
+    conc = [v for v in setup.dimvals.values() if isinstance(v, int)]
+    dmax = max(conc + [1])
+    order = setup.comp.formats[setup.comp.target].order
+    bucket = 1
+    for v in sorted(conc, reverse=True)[: max(order, 1)]:
+        bucket *= max(v, 1)
     n_inputs = max(1, len(setup.comp.formats) - 1)
-    return max(dmax, 1) * 1 + setup.max_nnz * n_inputs + 2
+    return max(dmax, bucket) + setup.max_nnz * n_inputs + 2
 
 
 class Budget(Exception):
